@@ -190,6 +190,11 @@ pub fn shard_fault(def: &E2Def, tier: &str, seed: u64, shard: u32, programs: u32
         // count run with journal scope gives the journal call list
         let cr = {
             let out0 = run_child(&sb, &case, &Inject { kill: None, fail: None, scope_jnl: true }, true);
+            if matches!(out0.code, Some(3) | Some(5)) {
+                let m = parse_marker(&sb.marker);
+                out.failure = Some(uninjected_failure(def.id, &case, &format!("UNINJECTED-RUN-FAILED: {:?} {:?}", m.errors, m.panic)));
+                break 'prog;
+            }
             if out0.code != Some(0) {
                 *stats.entry("count_run_failed".into()).or_insert(0) += 1;
                 continue;
@@ -454,6 +459,9 @@ pub fn mt_fault_check(sb: &Sandbox, threads: usize, ops: usize, flavor: u8, fail
         .env("FJSHIM_LOG", &sb.log)
         .env("FJSHIM_SCOPE", "jnl")
         .env("FJSHIM_FAIL", fail)
+        // the failing call is held for a while (after it was logged): other writers queue up
+        // behind the journal lock and must all be refused
+        .env("FJSHIM_FAIL_DELAY_MS", "25")
         .env_remove("FJSHIM_KILL")
         .stdout(std::process::Stdio::null())
         .stderr(std::process::Stdio::null())
